@@ -126,6 +126,11 @@ func (r *runner) cardinality() {
 				if !r.c.Quick() && n > 0 {
 					positions = []string{"last", "first"}
 				}
+				if n > 0 && child != "m:ext" {
+					// the same body with an extension statement in front of everything / at its end:
+					// extension statements are allowed anywhere and exempt nothing else
+					positions = append(positions, "ext-first", "ext-last")
+				}
 				for _, where := range positions {
 					g := &gen{}
 					var extra []string
@@ -144,9 +149,12 @@ func (r *runner) cardinality() {
 						}
 					}
 					var ps string
-					if where == "first" {
+					if where == "first" || where == "ext-first" || where == "ext-last" {
 						// extra children before the required ones
 						body := append([]string{}, extra...)
+						if where == "ext-first" {
+							body = append([]string{"m:ext arg;"}, body...)
+						}
 						for _, rq := range required(parent) {
 							if rq != child {
 								body = append(body, g.stmt(rq, "", nil))
@@ -161,6 +169,9 @@ func (r *runner) cardinality() {
 								body = append(body, "key k;")
 							}
 							body = append(body, "leaf k { type string; }")
+						}
+						if where == "ext-last" {
+							body = append(body, "m:ext arg;")
 						}
 						arg := g.argument(parent)
 						ps = parent
